@@ -33,6 +33,7 @@ def leaf_defs():
         Alias("AO", Opt(P("string"))),
         Record("G", [("t", TP("T")), ("ot", Opt(TP("T")))], tparams=("T",)),
         Alias("GA", Vec(TP("T")), tparams=("T",)),
+        Record("G1", [("t", TP("T")), ("n", P("int32"))], tparams=("T",)),
         Record("G2", [("u", Union(("t", TP("T")), ("u", TP("U")))), ("m", Map(P("string"), TP("T")))], tparams=("T", "U")),
         Alias("GU", Union(TP("T"), P("string")), tparams=("T",)),
         Alias("GN", Union(None, TP("T"), P("float32")), tparams=("T",)),
@@ -50,25 +51,32 @@ def leaves(level=1):
 
 
 def tag_of(t, i):
+    """Natural tag for simple types; for anything else a tag that is a function of the type (yardl requires that a
+    given combination of tags is not reused with different types anywhere in a package)."""
+    import hashlib
     d = am.default_tag(t)
-    return d if d is not None and "." not in (t[1] if t[0] == "named" else "") else "c%d" % i
+    if d is not None and "." not in (t[1] if t[0] == "named" else ""):
+        return d
+    return "c" + hashlib.sha1(repr(t).encode()).hexdigest()[:7]
 
 
 def mk_union(cases, null=False):
     """Union with explicit natural tags (prim/named: derived name; others: c<i>)."""
     cs = [(tag_of(c, i), c) for i, c in enumerate(cases)]
     tags = [t for t, _ in cs]
-    if len(set(tags)) != len(tags):
-        cs = [("c%d" % i, c) for i, (_, c) in enumerate(cs)]
+    assert len(set(tags)) == len(tags), tags
     all_default = all(am.default_tag(c) is not None and tg == am.default_tag(c) for tg, c in cs)
     if all_default:
         return ("union", tuple(([(None, None)] if null else []) + [(None, c) for _, c in cs]))
+    # explicit tags must be camelCased
+    cs = [(tg[0].lower() + tg[1:], c) for tg, c in cs]
     return ("union", tuple(([(None, None)] if null else []) + cs))
 
 
 def union_case_set():
     """Case set for 2-case unions: every JSON-kind class with every representative type."""
-    return [P(p) for p in am.PRIMS] + [N("E"), N("E8"), N("F"), N("RT"), N("RS"), N("AC"), N(IMP_NS + ".IR"),
+    # `size` is left out: unions differing only in uint64 vs size map to the same std::variant in C++ (see C08)
+    return [P(p) for p in am.PRIMS if p != "size"] + [N("E"), N("E8"), N("F"), N("RT"), N("RS"), N("AC"), N(IMP_NS + ".IR"),
                                         N("G", P("int32")), Vec(P("int32")), Vec(P("string"), 2), Arr(P("int32"), [2, 2]),
                                         Arr(P("float32"), 2), Arr(P("int32"), None), Map(P("string"), P("int32")),
                                         Map(P("int32"), P("string"))]
@@ -127,10 +135,12 @@ def shapes(depth, tier="quick"):
                 add(Map(P(k), P("int32")))
                 add(Map(P(k), N("RS")))
             cs = union_case_set()
-            for i, j in itertools.combinations(range(len(cs)), 2):
+            pairs = [(i, j) for i, j in itertools.combinations(range(len(cs)), 2)
+                     if {cs[i], cs[j]} != {P("uint64"), P("size")}]  # yardl: "uint64 and size are equivalent"
+            for i, j in pairs:
                 add(mk_union([cs[i], cs[j]]))
                 nxt.append(mk_union([cs[i], cs[j]]))
-            for i, j in itertools.combinations(range(len(cs)), 2):
+            for i, j in pairs:
                 if (i + j) % (3 if tier == "quick" else 1) == 0:
                     add(mk_union([cs[j], cs[i]], null=True))
             reps = kind_representatives()
@@ -142,49 +152,90 @@ def shapes(depth, tier="quick"):
     return out
 
 
-def supports_cpp(t):
-    """Shapes known not to compile in C++ for reasons outside yardl (stand-in headers): none currently."""
-    return True
+def has_vector_of_bool(t, as_stream_item=False):
+    """True when the generated C++ would use std::vector<bool> (bool* anywhere, or bool as a stream item)."""
+    if as_stream_item and t == ("prim", "bool"):
+        return True
+    k = t[0]
+    if k == "vec" and t[2] is None and t[1] == ("prim", "bool"):
+        return True
+    if k in ("opt", "vec", "arr", "stream"):
+        return has_vector_of_bool(t[1])
+    if k == "union":
+        return any(c is not None and has_vector_of_bool(c) for _, c in t[1])
+    if k == "map":
+        return has_vector_of_bool(t[1]) or has_vector_of_bool(t[2])
+    if k == "named":
+        return any(has_vector_of_bool(a) for a in t[2]) or (t[1] == "GA" and t[2][0] == ("prim", "bool"))
+    return False
+
+
+def ns_name(prefix, i):
+    return prefix + chr(ord("a") + i // 26) + chr(ord("a") + i % 26)
 
 
 # ------------------------------------------------------------------ packing
-def pack(shape_list, namespace, per_protocol=25, per_package=100, with_records=True):
+def pack(shape_list, namespace, per_protocol=25, per_package=100, with_records=True, skip_vector_bool=True):
     """Packs shapes into packages. Each shape i becomes, in protocol P<k>:  step v<i>: shape ; step s<i>: !stream shape.
     Returns list of (Package, index) where index = list of (shape, protocol name, value step name, stream step name)."""
     pkgs = []
     imp = imported_package()
+    def _has_date(t):
+        if t is None:
+            return False
+        if t[0] == "prim":
+            return t[1] in ("date", "time", "datetime")
+        if t[0] == "named":
+            return t == N("GU", P("date")) or any(_has_date(a) for a in t[2])
+        if t[0] == "union":
+            return any(_has_date(c) for _, c in t[1])
+        if t[0] == "map":
+            return _has_date(t[1]) or _has_date(t[2])
+        if t[0] in ("opt", "vec", "arr", "stream"):
+            return _has_date(t[1])
+        return False
+
     for pi in range(0, len(shape_list), per_package):
         chunk = shape_list[pi:pi + per_package]
-        ns = "%s%d" % (namespace, pi // per_package)
+        # date-bearing shapes go to their own protocols (PD*): their NDJSON text is not compared across languages
+        chunk = [s for s in chunk if not _has_date(s)] + [s for s in chunk if _has_date(s)]
+        ndate = sum(1 for s in chunk if _has_date(s))
+        ns = ns_name(namespace, pi // per_package)
         protos, index = [], []
-        for qi in range(0, len(chunk), per_protocol):
-            steps = []
-            pname = "P%d" % (qi // per_protocol)
-            for si, sh in enumerate(chunk[qi:qi + per_protocol]):
-                gi = qi + si
-                steps.append(("v%d" % gi, sh))
-                steps.append(("s%d" % gi, Stream(sh)))
-                index.append((sh, pname, "v%d" % gi, "s%d" % gi))
-            protos.append(Protocol(pname, steps))
+        groups = [("P", chunk[:len(chunk) - ndate], 0), ("PD", chunk[len(chunk) - ndate:], len(chunk) - ndate)]
+        for prefix, grp, off in groups:
+            for qi in range(0, len(grp), per_protocol):
+                steps = []
+                pname = "%s%d" % (prefix, qi // per_protocol)
+                for si, sh in enumerate(grp[qi:qi + per_protocol]):
+                    gi = off + qi + si
+                    steps.append(("v%d" % gi, sh))
+                    sname = None
+                    if not (skip_vector_bool and has_vector_of_bool(sh, as_stream_item=True)):
+                        sname = "s%d" % gi
+                        steps.append((sname, Stream(sh)))
+                    index.append((sh, pname, "v%d" % gi, sname))
+                protos.append(Protocol(pname, steps))
         defs = leaf_defs()
         if with_records:
             # each shape also as a record field (10 per record) and as a generic argument
-            recs = []
-            for ri in range(0, len(chunk), 10):
-                fields = [("f%d" % (ri + j), sh) for j, sh in enumerate(chunk[ri:ri + 10])]
-                recs.append(Record("W%d" % (ri // 10), fields))
-            defs += recs
-            rsteps = []
-            for r in recs:
-                rsteps.append(("r" + r.name, N(r.name)))
-                rsteps.append(("q" + r.name, Stream(N(r.name))))
-            for ri in range(0, len(rsteps), 50):
-                protos.append(Protocol("PR%d" % (ri // 50), rsteps[ri:ri + 50]))
-            gsteps = []
-            for gi, sh in enumerate(chunk):
-                gsteps.append(("g%d" % gi, N("G", sh) if not is_optlike(sh) else N("GA", sh)))
-            for gi in range(0, len(gsteps), 50):
-                protos.append(Protocol("PG%d" % (gi // 50), gsteps[gi:gi + 50]))
+            for prefix, grp, off in groups:
+                recs = []
+                for ri in range(0, len(grp), 10):
+                    fields = [("f%d" % (off + ri + j), sh) for j, sh in enumerate(grp[ri:ri + 10])]
+                    recs.append(Record("W%s%d" % (prefix[1:], ri // 10), fields))
+                defs += recs
+                rsteps = []
+                for r in recs:
+                    rsteps.append(("r" + r.name.lower(), N(r.name)))
+                    rsteps.append(("q" + r.name.lower(), Stream(N(r.name))))
+                for ri in range(0, len(rsteps), 50):
+                    protos.append(Protocol("%sR%d" % (prefix, ri // 50), rsteps[ri:ri + 50]))
+                gsteps = []
+                for gi, sh in enumerate(grp):
+                    gsteps.append(("g%d" % (off + gi), N("G", sh) if sh[0] not in ("opt", "union") else N("G1", sh)))
+                for gi in range(0, len(gsteps), 50):
+                    protos.append(Protocol("%sG%d" % (prefix, gi // 50), gsteps[gi:gi + 50]))
         pkg = Package(ns, defs=defs, protocols=protos, imports=[imp], dirname=ns.lower())
         pkgs.append((pkg, index))
     return pkgs
